@@ -2,7 +2,7 @@
 C14 — row-level update notifications reflect every changed key and its final fate.
 Property theorems only; the model is `Corro/Model/Updates.lean` (the loop of `batch_candidates`,
 `handle_candidates`, `filter_matchable_change` in crates/klukai-types/src/updates.rs), helper lemmas
-are in `Corro/Lemmas/Updates.lean` and `Corro/Lemmas/UpdatesInv.lean`, the constants in
+are in `Corro/Lemmas/Updates.lean`, `UpdatesInv.lean` and `UpdatesHorizon.lean`, the constants in
 `Corro/Gen/UpdatesConsts.lean` are regenerated from the source on every run.
 
 All theorems quantify over ALL parameters `p` (cache capacity / kept entries / flush threshold) and
@@ -21,7 +21,7 @@ Summary of strength:
   `newer_lost_after_eviction_counterexample` (the newer notification is overwritten in the buffer and
   never sent).  Reported to the coordinator as finding F10.
 -/
-import Corro.Lemmas.UpdatesInv
+import Corro.Lemmas.UpdatesHorizon
 import Corro.Gen.UpdatesConsts
 
 namespace Corro.Updates
@@ -31,56 +31,12 @@ def codeParams : Params :=
   ⟨Corro.Gen.UpdatesConsts.maxCacheEntries, Corro.Gen.UpdatesConsts.keepCacheEntries,
    Corro.Gen.UpdatesConsts.processChangesThreshold⟩
 
-/-- the last event of key `k` in an event list -/
-def lastEventOf (k : Key) (es : List Event) : Option Event := (es.filter (·.key = k)).getLast?
-
 /-- **Constants.** The compiled constants satisfy the side conditions used below
 (`keep ≤ cap`: `split_off(len - KEEP)` cannot underflow and an eviction really drops entries). -/
 theorem code_params_admissible :
     codeParams.keep ≤ codeParams.cap ∧ 1 ≤ codeParams.keep ∧ 1 ≤ codeParams.thr := by decide
 
 /-! ### which keys become candidates -/
-
-theorem lookup_append (k : Nat) (a b : List Cand) :
-    lookup k (a ++ b) = (lookup k a).orElse (fun _ => lookup k b) := by
-  induction a with
-  | nil => simp [lookup]
-  | cons c rest ih =>
-    simp only [List.cons_append, lookup]
-    split
-    · simp
-    · exact ih
-
-theorem filter_fold_spec (k : Nat) : ∀ (cs : List Change) (acc : List Cand),
-    lookup k (cs.foldl filterOne acc) =
-      (lookup k acc).orElse (fun _ => (cs.find? (fun c => c.mine && c.key == k)).map (·.cl)) := by
-  intro cs
-  induction cs with
-  | nil =>
-    intro acc
-    simp only [List.foldl_nil, List.find?_nil, Option.map_none]
-    cases lookup k acc <;> rfl
-  | cons c rest ih =>
-    intro acc
-    simp only [List.foldl_cons, ih, List.find?_cons]
-    unfold filterOne
-    cases hm : c.mine with
-    | false => simp
-    | true =>
-      simp only [if_true, Bool.true_and]
-      by_cases hk : c.key = k
-      · subst hk
-        simp only [beq_self_eq_true]
-        cases hl : lookup c.key acc with
-        | some v => simp [hl]
-        | none => simp [hl, lookup_append, lookup]
-      · have hb : (c.key == k) = false := by simp [hk]
-        simp only [hb]
-        cases hl : lookup c.key acc with
-        | some v => simp
-        | none =>
-          simp only [Option.isSome_none, Bool.false_eq_true, if_false, lookup_append, lookup, hk, if_false]
-          cases lookup k acc <;> simp
 
 /-- **"every primary key whose row was changed" (candidate side).** Of the change list of one
 committed version, `match_changes` sends to the table's handle exactly one candidate per primary key
@@ -90,28 +46,6 @@ theorem filter_keeps_first_cl_per_key (cs : List Change) (k : Key) :
     lookup k (filterChanges cs) = (cs.find? (fun c => c.mine && c.key == k)).map (·.cl) := by
   unfold filterChanges
   rw [filter_fold_spec]; simp [lookup]
-
-theorem filter_fold_nodup : ∀ (cs : List Change) (acc : List Cand),
-    (acc.map (·.1)).Nodup → ((cs.foldl filterOne acc).map (·.1)).Nodup := by
-  intro cs
-  induction cs with
-  | nil => intro acc h; exact h
-  | cons c rest ih =>
-    intro acc h
-    simp only [List.foldl_cons]
-    apply ih
-    unfold filterOne
-    split
-    · split
-      · exact h
-      · rename_i hn
-        rw [List.map_append, List.nodup_append]
-        refine ⟨h, by simp, ?_⟩
-        intro a ha b hb
-        simp only [List.map_cons, List.map_nil, List.mem_singleton] at hb
-        subst hb; intro e; subst e
-        exact hn ((lookup_isSome_iff_mem_keys _ _).2 ha)
-    · exact h
 
 /-- The candidate batch of one change list has pairwise distinct keys (the hypothesis of
 `every_key_notified` is what the code produces). -/
@@ -204,14 +138,6 @@ theorem no_stale_partial (p : Params) (ins : List In) (k : Key)
 
 /-! ### the last notification of a key tells its fate -/
 
-theorem clsOf_getLast (k : Key) (es : List Event) (m : Nat)
-    (h : (clsOf k es).getLast? = some m) : ∃ e, lastEventOf k es = some e ∧ e.cl = m := by
-  unfold clsOf at h; unfold lastEventOf
-  rw [List.getLast?_map] at h
-  cases hl : (es.filter (·.key = k)).getLast? with
-  | none => rw [hl] at h; simp at h
-  | some e => rw [hl] at h; simp only [Option.map_some, Option.some.injEq] at h; exact ⟨e, rfl, h⟩
-
 /-- **"the last notification for a key says 'deleted' exactly when …" (partial: horizon
 hypothesis).**  For a key that is never evicted during the run: once everything buffered has been
 flushed (final `tick`), the LAST event emitted for the key carries the HIGHEST causal length that
@@ -278,131 +204,6 @@ theorem deleted_iff_row_absent (p : Params) (ins : List In) (k : Key) (rowCl : N
 
 /-! ### a sufficient condition for the horizon hypothesis -/
 
-theorem length_pushCand_le (s : St) (c : Cand) : (pushCand s c).cache.length ≤ s.cache.length + 1 := by
-  unfold pushCand; split
-  · omega
-  · exact length_upsert_le _ _ _
-
-theorem length_fold_le : ∀ (b : List Cand) (s : St),
-    (b.foldl pushCand s).cache.length ≤ s.cache.length + b.length := by
-  intro b
-  induction b with
-  | nil => intro s; simp
-  | cons c rest ih =>
-    intro s
-    have h1 := ih (pushCand s c)
-    have h2 := length_pushCand_le s c
-    simp only [List.foldl_cons, List.length_cons]; omega
-
-/-- number of candidates of an input -/
-def candCount : List In → Nat
-  | [] => 0
-  | .batch b :: xs => b.length + candCount xs
-  | .tick :: xs => candCount xs
-
-theorem pushCand_keeps_cached {s : St} (c : Cand) {k : Nat} (h : cached k s = true) :
-    cached k (pushCand s c) = true := by
-  simp only [cached] at h ⊢
-  obtain ⟨v, hv⟩ := Option.isSome_iff_exists.1 h
-  obtain ⟨v', hv', _⟩ := pushCand_cache_mono c hv
-  simp [hv']
-
-theorem fold_keeps_cached {s : St} (b : List Cand) {k : Nat} (h : cached k s = true) :
-    cached k (b.foldl pushCand s) = true := by
-  induction b generalizing s with
-  | nil => exact h
-  | cons c rest ih => exact ih (pushCand_keeps_cached c h)
-
-theorem fold_caches_offered : ∀ (b : List Cand) (s : St) (k : Nat),
-    offeredIn k (.batch b) ≠ [] → cached k (b.foldl pushCand s) = true := by
-  intro b
-  induction b with
-  | nil => intro s k h; simp [offeredIn] at h
-  | cons c rest ih =>
-    intro s k h
-    simp only [List.foldl_cons]
-    by_cases hk : c.1 = k
-    · apply fold_keeps_cached
-      simp only [cached]
-      unfold pushCand
-      cases hst : stale s c with
-      | true =>
-        simp only [if_true]
-        unfold stale at hst
-        cases hl : lookup c.1 s.cache with
-        | none => rw [hl] at hst; simp at hst
-        | some v => rw [← hk, hl]; rfl
-      | false =>
-        simp only [Bool.false_eq_true, if_false]
-        rw [← hk, lookup_upsert_self]; rfl
-    · apply ih
-      simpa [offeredIn, List.filter_cons, hk] using h
-
-/-- While the cache cannot exceed its capacity nothing is evicted: a key that was cached before an
-iteration, or is offered in it, is cached after it. -/
-theorem keptStep_of_room {p : Params} {k : Nat} {s : St} (x : In)
-    (hroom : (folded s x).cache.length ≤ p.cap) : keptStep p k s x := by
-  intro h
-  simp only [cached, step_cache]
-  cases x with
-  | tick =>
-    simp only [arm]
-    rcases h with h | h
-    · split <;> simpa [cached] using h
-    · simp [offeredIn] at h
-  | batch b =>
-    have hc : cached k (b.foldl pushCand s) = true := by
-      rcases h with h | h
-      · exact fold_keeps_cached b h
-      · exact fold_caches_offered b s k h
-    simp only [folded] at hroom
-    have he : evict p (b.foldl pushCand s).cache = (b.foldl pushCand s).cache := by
-      unfold evict; rw [if_neg (by omega)]
-    simp only [arm]
-    split <;> (simp only [he]; simpa [cached] using hc)
-
-theorem step_cache_length_le (p : Params) (s : St) (x : In) :
-    (step p s x).1.cache.length ≤ (folded s x).cache.length := by
-  rw [step_cache]
-  cases x with
-  | tick => simp only [arm, folded]; split <;> simp
-  | batch b =>
-    simp only [arm, folded]
-    have : (evict p (b.foldl pushCand s).cache).length ≤ (b.foldl pushCand s).cache.length := by
-      unfold evict; split
-      · simp
-      · omega
-    split <;> exact this
-
-theorem folded_length_le (s : St) (x : In) :
-    (folded s x).cache.length ≤ s.cache.length + candCount [x] := by
-  cases x with
-  | tick => simp [folded, candCount]
-  | batch b => simpa [folded, candCount] using length_fold_le b s
-
-theorem kept_of_room (p : Params) (k : Nat) : ∀ (xs : List In) (s : St),
-    s.cache.length + candCount xs ≤ p.cap → keptThroughout p k s xs = true := by
-  intro xs
-  induction xs with
-  | nil => intro s _; rfl
-  | cons x xs ih =>
-    intro s h
-    have hx : candCount (x :: xs) = candCount [x] + candCount xs := by
-      cases x <;> simp [candCount]
-    have hf := folded_length_le s x
-    have hs := step_cache_length_le p s x
-    have hkept : keptStep p k s x := keptStep_of_room x (by omega)
-    simp only [keptThroughout, Bool.and_eq_true]
-    refine ⟨?_, ih _ (by omega)⟩
-    split
-    · rename_i hc
-      apply hkept
-      simp only [Bool.or_eq_true, Bool.not_eq_true', List.isEmpty_eq_false_iff] at hc
-      rcases hc with hc | hc
-      · exact Or.inl hc
-      · exact Or.inr hc
-    · rfl
-
 /-- **Horizon, simplest sufficient condition.** A run that delivers at most `cap` candidates in
 total never evicts anything, so `parity_is_fate` / `no_stale_partial` apply to all of its keys.
 (The real horizon is wider: a key is evicted only after the cache grew beyond `cap` entries with at
@@ -448,67 +249,10 @@ theorem newer_lost_after_eviction_counterexample :
     lastEventOf 0 (events small init lostTrace) = some ⟨0, .delete, 2⟩ ∧
     maxCl (offered 0 lostTrace) = 3 := by decide
 
-/-- `n` fresh keys `1..n`, all inserts -/
-def fill (n : Nat) : List Cand := (List.range n).map (fun i => (i + 1, 1))
-
 /-- the same trace shape for any capacity: notify cl 3 of key 0, one batch of `cap` other keys, then
 the late cl 2 -/
 def staleTraceFor (p : Params) : List In :=
   [.batch [(0, 3)], .tick, .batch (fill p.cap), .batch [(0, 2)]]
-
-theorem upsert_of_not_mem {k v : Nat} {l : List Cand} (h : k ∉ l.map (·.1)) :
-    upsert k v l = l ++ [(k, v)] := by
-  induction l with
-  | nil => rfl
-  | cons c rest ih =>
-    simp only [List.map_cons, List.mem_cons, not_or] at h
-    unfold upsert
-    rw [if_neg (fun e => h.1 e.symm), ih h.2]; rfl
-
-theorem fold_fresh : ∀ (b : List Cand) (s : St),
-    (b.map (·.1)).Nodup → (∀ k ∈ b.map (·.1), k ∉ s.cache.map (·.1) ∧ k ∉ s.buf.map (·.1)) →
-    b.foldl pushCand s =
-      { s with cache := s.cache ++ b, buf := s.buf ++ b, bufCount := s.bufCount + b.length } := by
-  intro b
-  induction b with
-  | nil => intro s _ _; simp
-  | cons c rest ih =>
-    intro s hn hf
-    simp only [List.map_cons, List.nodup_cons] at hn
-    have hc := hf c.1 (by simp)
-    have hst : stale s c = false := by
-      unfold stale; rw [(lookup_eq_none_iff _ _).2 hc.1]
-    have hp : pushCand s c =
-        { s with cache := s.cache ++ [c], buf := s.buf ++ [c], bufCount := s.bufCount + 1 } := by
-      unfold pushCand; rw [hst]
-      simp only [Bool.false_eq_true, if_false, upsert_of_not_mem hc.1, upsert_of_not_mem hc.2]
-    simp only [List.foldl_cons]
-    rw [hp, ih _ hn.2]
-    · simp only [List.append_assoc, List.singleton_append, List.length_cons]
-      congr 1; omega
-    · intro k hk
-      have := hf k (by simp [hk])
-      simp only [List.map_append, List.map_cons, List.map_nil, List.mem_append, List.mem_singleton, not_or]
-      have hne : k ≠ c.1 := by intro e; apply hn.1; rw [← e]; exact hk
-      exact ⟨⟨this.1, hne⟩, ⟨this.2, hne⟩⟩
-
-theorem fill_keys (n : Nat) : (fill n).map (·.1) = (List.range n).map (· + 1) := by
-  simp [fill, Function.comp_def]
-
-theorem fill_keys_nodup (n : Nat) : ((fill n).map (·.1)).Nodup := by
-  rw [fill_keys]
-  rw [List.Nodup, List.pairwise_map]
-  exact (List.nodup_range (n := n)).imp (by intro a b h; simpa using h)
-
-theorem zero_not_in_fill (n : Nat) : 0 ∉ (fill n).map (·.1) := by
-  rw [fill_keys]; simp
-
-theorem lookup_zero_drop_fill (n m : Nat) : lookup 0 ((fill n).drop m) = none := by
-  rw [lookup_eq_none_iff, List.map_drop]
-  intro h; exact zero_not_in_fill n (List.mem_of_mem_drop h)
-
-theorem clsOf_zero_fill (n : Nat) : clsOf 0 ((fill n).map toEvent) = [] :=
-  clsOf_map_toEvent_of_none ((lookup_eq_none_iff _ _).2 (zero_not_in_fill n))
 
 /-- **The hole for every capacity.** For all parameters with `1 ≤ cap`, `keep ≤ cap` (any threshold): after
 the notification of causal length 3 for key 0, ONE batch of `cap` other keys evicts key 0 from the
@@ -576,6 +320,13 @@ theorem stale_after_eviction_general (p : Params) (hcap : 1 ≤ p.cap) (hk : p.k
       intro a ha; simp only [decide_eq_true_eq]
       intro e; exact zero_not_in_fill p.cap (e ▸ List.mem_map_of_mem (f := (·.1)) ha)
     simp [this, maxCl]
+
+/-- **The hole with the compiled constants** (the pinned replay `corpus/C14/f10_stale_after_eviction.ops`:
+2000 other keys between the reordered pair; re-checked against the regenerated constants). -/
+theorem stale_after_eviction_code_params :
+    clsOf 0 (events codeParams init (staleTraceFor codeParams)) = [3, 2] ∧
+    maxCl (offered 0 (staleTraceFor codeParams)) = 3 :=
+  stale_after_eviction_general codeParams (by decide) (by decide)
 
 /-! ### the hypotheses are satisfiable by non-trivial inputs -/
 
